@@ -207,12 +207,12 @@ def run(ctx, rep) -> None:
     rep.rule("C10.2", "CONVERGED is produced only by an expression that is true iff the last |M - I| residual <= tolerance")
     rep.rule("C10.3", "higher-order solver: residual guard (recomputed from the returned X) and NaN/Inf guard dominate the return; tf32 flag restored in finally")
     rep.rule("C10.4", "after the ridge matrix is formed the raw input is only read for shape/dtype/device")
-    dispatch_rules(ctx, rep, "C10.1")
-    convergence_flag(ctx, rep, "C10.2")
-    higher_order_guards(ctx, rep, "C10.3")
-    ridge_discipline(ctx, rep, "C10.4")
+    rep.attempt("dispatch_rules", dispatch_rules, ctx, rep, "C10.1")
+    rep.attempt("convergence_flag", convergence_flag, ctx, rep, "C10.2")
+    rep.attempt("higher_order_guards", higher_order_guards, ctx, rep, "C10.3")
+    rep.attempt("ridge_discipline", ridge_discipline, ctx, rep, "C10.4")
     from .c03 import exact_diagonal_flag
 
     rep.rule("C10.5", "the diagonal fast path is taken only for exactly diagonal matrices")
-    exact_diagonal_flag(ctx, rep, "C10.5")
+    rep.attempt("exact_diagonal_flag", exact_diagonal_flag, ctx, rep, "C10.5")
     rep.assume("every accuracy bound of the statement and the agreement of fast paths with the general path are numerical and NOT decided; this is the weakest claimed property")
